@@ -1,0 +1,64 @@
+//go:build verif
+
+package app
+
+// Instrumentation used by the external verification harness (/verif).
+// Compiled only with `-tags verif`; the no-op twins live in verif_hooks_off.go.
+
+import (
+	"sync/atomic"
+	"time"
+
+	"github.com/f1bonacc1/process-compose/src/command"
+	"github.com/f1bonacc1/process-compose/src/types"
+)
+
+// VerifHooks is the set of callbacks the harness installs. Every field is optional.
+type VerifHooks struct {
+	// Commander returns the command object to use for a launch (nil = production command).
+	Commander func(conf *types.ProcessConfig, executable string, args []string) command.Commander
+	// State is called for every status write, under the process's state mutex.
+	// It must not call back into the runner.
+	State func(replicaName, state string)
+	// TimeUnit replaces time.Second in the restart back-off (0 = unchanged).
+	TimeUnit time.Duration
+	// Yield is called at named check-then-act windows; it may block.
+	Yield func(point, replicaName string)
+}
+
+var verifHooks atomic.Pointer[VerifHooks]
+
+// SetVerifHooks installs (or, with nil, removes) the harness callbacks.
+func SetVerifHooks(h *VerifHooks) { verifHooks.Store(h) }
+
+func verifCommander(p *Process) command.Commander {
+	h := verifHooks.Load()
+	if h == nil || h.Commander == nil {
+		return nil
+	}
+	return h.Commander(p.procConf, p.procConf.Executable, p.mergeExtraArgs())
+}
+
+func verifState(p *Process, state string) {
+	h := verifHooks.Load()
+	if h == nil || h.State == nil {
+		return
+	}
+	h.State(p.procConf.ReplicaName, state)
+}
+
+func verifTimeUnit() time.Duration {
+	h := verifHooks.Load()
+	if h == nil {
+		return 0
+	}
+	return h.TimeUnit
+}
+
+func verifYield(point, replicaName string) {
+	h := verifHooks.Load()
+	if h == nil || h.Yield == nil {
+		return
+	}
+	h.Yield(point, replicaName)
+}
